@@ -22,12 +22,15 @@ SPEC = {
     ],
     "classes": {1: "variable-position-not-checked", 2: "overlapping-fields-partial", 3: "argument-values-partial",
                 4: "subscription-single-root-not-checked", 5: "typename-field-unvisited"},
-    "n_quick": 800, "n_thorough": 12000,
+    "n_quick": 500, "n_thorough": 12000,
     "level": "other",
     "what_violation": "strict validation accepts/rejects differently from the specification of validity (or rejects without a located error / after a resolver ran)",
     "rule": ("per generated schema (injected registry: objects, interfaces, unions, enum, input objects incl. oneOf, custom scalar, Upload, "
-             "argument defaults, a repeatable custom directive, optional mutation and subscription roots): a fixed corpus of 29 witnesses and "
-             "boundary documents on every 4th schema, then valid documents generated from the schema (1/4 kept valid, 3/4 with ONE of 36 "
+             "argument defaults, a repeatable custom directive, optional mutation and subscription roots): a fixed corpus of 35 witnesses and "
+             "boundary documents on every 4th schema; 8 documents with 2-4 operations sharing fragments (direct/transitive spreads, fragments on "
+             "two types, variables used only inside fragments; valid, or ONE of: definition dropped in one operation, unused definition, wrong "
+             "declared type, unused fragment), each validated 8 times (the rules' per-operation hash maps are randomly seeded; any acceptance "
+             "counts); then valid documents generated from the schema (1/4 kept valid, 3/4 with ONE of 36 "
              "rule-targeted mutations), run through Schema::execute in strict mode with an extension around the validation step and counting "
              "root resolvers; oracle spec_valid; distinct by (schema, mutation, variables, text); non-trivial = mutated or longer than 20 bytes"),
     "trusted": ["tools/factsgen/visitor.py (method lists of trait Visitor / VisitorCons, .with chains -> VisitorGen.v)",
